@@ -238,3 +238,39 @@ def oracle_C04(meta, kw, res):
                 out.append(("success-nonfinite-%s" % kw["method"], "status Success with a non-finite state"))
                 break
     return out
+
+
+def oracle_C09(meta, kw, res):
+    """single known root t=c of g = s*(t-c): exactly one event, at the root (grid-aware builder)"""
+    out = []
+    st = res.get("status")
+    roots = meta.get("roots")
+    if not roots or st in ("error", "panic", None):
+        return out
+    d = direction(kw)
+    stop = None
+    if st != "Success":
+        t = res.get("t", [])
+        stop = t[-1] if t else kw["x0"]
+    for i, r in enumerate(roots):
+        c, slope, dirn = r["root"], r["slope"], r["dir"]
+        tev = res.get("tev", {}).get(i, [])
+        expected = (dirn == 0) or (dirn > 0 and slope > 0) or (dirn < 0 and slope < 0)
+        tol = 2 * (4 * 2.0 ** -52 * abs(c) + 2e-12 + 2e-12 / abs(slope)) + 1e-15
+        if stop is not None:
+            if (c - stop) * d > -tol:
+                if (c - stop) * d > tol and tev:
+                    out.append(("event-beyond-stop", "event %d reported although its root %r lies beyond the stopping point %r" % (i, c, stop)))
+                continue
+        on_boundary = "boundary" in meta.get("placements", [])
+        if not expected:
+            if tev:
+                out.append(("direction-filter", "event %d reported at %r against its direction filter %d (slope %+g in integration order)" % (i, tev[0], dirn, slope)))
+            continue
+        if len(tev) == 0:
+            out.append(("missed-root", "event %d: g = s*(t-%r) changes sign inside the span but no event was reported (placements %s)" % (i, c, meta.get("placements"))))
+        elif len(tev) > 1 and not on_boundary:
+            out.append(("duplicate-root", "event %d: single root %r reported %d times: %r" % (i, c, len(tev), tev[:3])))
+        elif abs(tev[0] - c) > tol:
+            out.append(("root-location", "event %d reported at %r, root is %r (|diff| %.3g > %.3g)" % (i, tev[0], c, abs(tev[0] - c), tol)))
+    return out
